@@ -246,7 +246,9 @@ theorem localShuffle_conserved [BEq α] [LawfulBEq α] {b b' : Bag α} {r : Nat}
       simp only [List.getD_eq_getElem?_getD, List.getElem?_set]
       have hrl : r < b.bags.length := (List.getElem?_eq_some_iff.mp hold).1
       by_cases hs : r = s
-      · subst hs; simp [hrl, hold]; exact hp'
+      · subst hs
+        have h2 := (List.getElem?_eq_some_iff.mp hold).2
+        simp [hrl]; rw [h2]; exact hp'
       · simp [hs]
     · simp at h
 
@@ -258,6 +260,12 @@ theorem zipWith_items (l : List α) (ds : List Nat) (h : ds.length = l.length) :
     cases ds with
     | nil => simp at h
     | cons d ds => simp [List.flatMap_cons, ih ds (by simpa using h)]
+
+theorem flatMap_flatten (mss : List (List (Msg α))) :
+    mss.flatten.flatMap (·.items) = (mss.map (fun ms => ms.flatMap (·.items))).flatten := by
+  induction mss with
+  | nil => rfl
+  | cons x xs ih => simp [List.flatMap_append, ih]
 
 theorem flatten_map_nil (L : List (List α)) : (L.map (fun _ => ([] : List α))).flatten = [] := by
   induction L with
@@ -277,9 +285,7 @@ theorem globalShuffle_conserved {b b' : Bag α} {dests : List (List Nat)} {sched
     refine ⟨?_, by simpa using hspec.2.2.1, hspec.1⟩
     refine hspec.2.2.2.1.trans ?_
     simp only [items, flatten_map_nil, List.nil_append]
-    have : mss.flatten.flatMap (·.items) = (mss.map (fun ms => ms.flatMap (·.items))).flatten := by
-      simp [List.flatMap_def, List.map_flatten]
-    rw [this]
+    rw [flatMap_flatten]
     have : mss.map (fun ms => ms.flatMap (·.items)) = b.bags := by
       apply List.ext_getElem
       · simp [hl]
@@ -428,10 +434,12 @@ theorem gather_spec {b : Bag α} {dest : Nat} {order : List Nat} {res : List (Li
     subst h
     have hp := List.isPerm_iff.mp hc.2
     refine ⟨by simp, hc.1, ?_, ?_⟩
-    · simp only [List.getD_eq_getElem?_getD, List.getElem?_map, List.getElem?_range hc.1, Option.map_some,
-        if_true, Option.getD_some]
+    · have hfm := flatMap_range_getD b.bags
+      rw [hw] at hfm
+      rw [List.getD_eq_getElem?_getD, List.getElem?_map, List.getElem?_range hc.1]
+      simp only [Option.map_some, if_true, Option.getD_some]
       refine (hp.flatMap_right _).trans ?_
-      rw [← hw, flatMap_range_getD]
+      rw [hfm]
       exact List.Perm.refl _
     · intro r hr
       simp only [List.getD_eq_getElem?_getD, List.getElem?_map]
@@ -508,6 +516,7 @@ theorem insert_fresh {tb : TBag α} (hi : TInv tb) (r : Nat) (x : α) (hr : r < 
     obtain ⟨r', s', hr', hs', hq'⟩ := hst q hq
     rw [hq'] at he
     have := tag_injective r' s' r (tb.next.getD r 0) (by have := hb r'; omega) (by omega) (by omega) (by omega) he
+    obtain ⟨rfl, rfl⟩ := this
     omega
   have hany : tb.store.any (fun p => p.1 == tag r (tb.next.getD r 0)) = false := by
     rw [Bool.eq_false_iff]
@@ -516,7 +525,7 @@ theorem insert_fresh {tb : TBag α} (hi : TInv tb) (r : Nat) (x : α) (hr : r < 
     obtain ⟨q, hq, he⟩ := hc
     exact hfresh q hq (by simpa using he)
   have hstore : (tb.insert r x).1.store = tb.store ++ [(tag r (tb.next.getD r 0), x)] := by
-    simp [TBag.insert, insertUnique, hany]
+    simp only [TBag.insert, insertUnique, hany, Bool.false_eq_true, if_false]
   have hnext : ∀ q, (tb.insert r x).1.next.getD q 0 = tb.next.getD q 0 + (if q = r then 1 else 0) := by
     intro q
     simp only [TBag.insert, List.getD_eq_getElem?_getD, List.getElem?_modify]
@@ -534,7 +543,11 @@ theorem insert_fresh {tb : TBag α} (hi : TInv tb) (r : Nat) (x : α) (hr : r < 
     obtain ⟨q, hq, rfl⟩ := ha
     exact hfresh q hq
   · simpa [TBag.insert] using hn
-  · intro q; rw [hnext q]; have := hb q; split <;> omega
+  · intro q
+    rw [hnext q]
+    by_cases hq : q = r
+    · subst hq; rw [if_pos rfl]; omega
+    · have := hb q; rw [if_neg hq]; omega
   · intro p hp
     rw [hstore, List.mem_append] at hp
     have hlen : (tb.insert r x).1.next.length = tb.next.length := by simp [TBag.insert]
@@ -551,7 +564,70 @@ theorem insert_fresh {tb : TBag α} (hi : TInv tb) (r : Nat) (x : α) (hr : r < 
       rw [List.filter_eq_nil_iff]
       intro q hq
       simpa using hfresh q hq
-    simp [this]
+    rw [this]; simp
+
+theorem get_visit_other (st : List (Nat × α)) (t t' : Nat) (f : α → α) (ht : t' ≠ t) :
+    ((st.map (fun p => if p.1 == t then (p.1, f p.2) else p)).filter (fun p => p.1 == t')).map (·.2) =
+      (st.filter (fun p => p.1 == t')).map (·.2) := by
+  induction st with
+  | nil => rfl
+  | cons p ps ih =>
+    rw [List.map_cons, List.filter_cons, List.filter_cons]
+    by_cases hp : p.1 = t
+    · have h1 : (p.1 == t) = true := by simpa using hp
+      have h2 : (p.1 == t') = false := by
+        have : p.1 ≠ t' := fun h => ht (by rw [← h, hp])
+        simpa using this
+      rw [if_pos h1]
+      simp only [h2, Bool.false_eq_true, if_false]
+      exact ih
+    · have h1 : ¬ ((p.1 == t) = true) := by simpa using hp
+      rw [if_neg h1]
+      by_cases h3 : (p.1 == t') = true
+      · rw [if_pos h3, if_pos h3, List.map_cons, List.map_cons, ih]
+      · rw [if_neg h3, if_neg h3]; exact ih
+
+theorem visit_key (t : Nat) (x : α) (f : α → α) : ∀ (st : List (Nat × α)), (st.map (·.1)).Nodup → (t, x) ∈ st →
+    (st.filter (fun p => p.1 == t)).map (·.2) = [x] ∧
+    ((st.map (fun p => if p.1 == t then (p.1, f p.2) else p)).filter (fun p => p.1 == t)).map (·.2) = [f x] ∧
+    (st.filter (fun p => !(p.1 == t))).length + 1 = st.length := by
+  intro st
+  induction st with
+  | nil => intro _ h; simp at h
+  | cons p ps ih =>
+    intro hn hm
+    rw [List.map_cons, List.nodup_cons] at hn
+    rcases List.mem_cons.mp hm with rfl | hm
+    · have hnone : ∀ q ∈ ps, (q.1 == t) = false := by
+        intro q hq
+        have hmem : q.1 ∈ ps.map (·.1) := List.mem_map_of_mem (f := (·.1)) hq
+        have : q.1 ≠ t := by intro he; rw [he] at hmem; exact hn.1 hmem
+        simpa using this
+      have h1 : ps.filter (fun p => p.1 == t) = [] := by
+        rw [List.filter_eq_nil_iff]; intro q hq; simp [hnone q hq]
+      have h2 : (ps.map (fun p => if p.1 == t then (p.1, f p.2) else p)).filter (fun p => p.1 == t) = [] := by
+        rw [List.filter_eq_nil_iff]
+        intro q hq
+        rw [List.mem_map] at hq
+        obtain ⟨q0, hq0, rfl⟩ := hq
+        rw [if_neg (by simp [hnone q0 hq0])]
+        simp [hnone q0 hq0]
+      have h3 : ps.filter (fun p => !(p.1 == t)) = ps := by
+        rw [List.filter_eq_self]; intro q hq; simp [hnone q hq]
+      have ht : ((t, x).1 == t) = true := by simp
+      refine ⟨?_, ?_, ?_⟩
+      · rw [List.filter_cons, if_pos ht, h1]; rfl
+      · rw [List.map_cons, if_pos ht, List.filter_cons, if_pos (by simp), h2]; rfl
+      · rw [List.filter_cons, if_neg (by simp), h3]; rfl
+    · have hp : (p.1 == t) = false := by
+        have hmem : t ∈ ps.map (·.1) := List.mem_map_of_mem (f := (·.1)) hm
+        have : p.1 ≠ t := by intro he; rw [← he] at hmem; exact hn.1 hmem
+        simpa using this
+      obtain ⟨i1, i2, i3⟩ := ih hn.2 hm
+      refine ⟨?_, ?_, ?_⟩
+      · rw [List.filter_cons, if_neg (by simp [hp])]; exact i1
+      · rw [List.map_cons, if_neg (by simp [hp]), List.filter_cons, if_neg (by simp [hp])]; exact i2
+      · rw [List.filter_cons, if_pos (by simp [hp]), List.length_cons, List.length_cons]; omega
 
 /-- **tag_visits_item**: through a tag, exactly the item stored under it is visited (once), gathered
 and erased; every other item is untouched.  Needs only that stored tags are distinct. -/
@@ -564,51 +640,11 @@ theorem tag_visits_item {tb : TBag α} (hnd : (tb.store.map (·.1)).Nodup) (t : 
     (tb.erase t).get t = [] ∧
     (∀ t', t' ≠ t → (tb.erase t).get t' = tb.get t') ∧
     (tb.erase t).store.length + 1 = tb.store.length := by
-  have key : ∀ (st : List (Nat × α)), (st.map (·.1)).Nodup → (t, x) ∈ st →
-      (st.filter (fun p => p.1 == t)).map (·.2) = [x] ∧
-      ((st.map (fun p => if p.1 == t then (p.1, f p.2) else p)).filter (fun p => p.1 == t)).map (·.2) = [f x] ∧
-      (st.filter (fun p => !(p.1 == t))).length + 1 = st.length := by
-    intro st
-    induction st with
-    | nil => intro _ h; simp at h
-    | cons p ps ih =>
-      intro hn hm
-      simp only [List.map_cons, List.nodup_cons] at hn
-      rcases List.mem_cons.mp hm with rfl | hm
-      · have hnone : ∀ q ∈ ps, (q.1 == t) = false := by
-          intro q hq
-          have : q.1 ≠ t := fun he => hn.1 (by rw [← he]; exact List.mem_map_of_mem hq)
-          simpa using this
-        have h1 : ps.filter (fun p => p.1 == t) = [] := by
-          rw [List.filter_eq_nil_iff]; intro q hq; simp [hnone q hq]
-        have h2 : (ps.map (fun p => if p.1 == t then (p.1, f p.2) else p)).filter (fun p => p.1 == t) = [] := by
-          rw [List.filter_eq_nil_iff]
-          intro q hq
-          simp only [List.mem_map] at hq
-          obtain ⟨q0, hq0, rfl⟩ := hq
-          simp [hnone q0 hq0]
-        have h3 : ps.filter (fun p => !(p.1 == t)) = ps := by
-          rw [List.filter_eq_self]; intro q hq; simp [hnone q hq]
-        simp [List.filter_cons, h1, h2, h3]
-      · have hp : (p.1 == t) = false := by
-          have : p.1 ≠ t := fun he => hn.1 (by rw [he]; exact List.mem_map_of_mem (f := (·.1)) hm)
-          simpa using this
-        obtain ⟨i1, i2, i3⟩ := ih hn.2 hm
-        simp only [List.filter_cons, List.map_cons, hp, Bool.false_eq_true, if_false, Bool.not_false, if_true,
-          List.length_cons]
-        exact ⟨i1, i2, by omega⟩
+  have key := visit_key t x f
   obtain ⟨k1, k2, k3⟩ := key tb.store hnd hx
   refine ⟨k1, k2, ?_, ?_, ?_, ?_, k3⟩
   · intro t' ht
-    unfold TBag.get TBag.visitIfExists
-    simp only []
-    induction tb.store with
-    | nil => rfl
-    | cons p ps ih =>
-      by_cases hp : p.1 = t
-      · have : ¬ (t = t') := fun h => ht h.symm
-        simp [List.filter_cons, hp, this, ih]
-      · simp [List.filter_cons, hp, ih]
+    exact get_visit_other tb.store t t' f ht
   · unfold TBag.visitIfExists
     simp only [List.map_map]
     apply List.map_congr_left
@@ -628,7 +664,7 @@ theorem tag_visits_item {tb : TBag α} (hnd : (tb.store.map (·.1)).Nodup) (t : 
     intro q _
     by_cases hq : q.1 = t'
     · have : ¬ (q.1 = t) := by rw [hq]; exact ht
-      simp [hq, this]
+      simp [hq, ht]
     · simp [hq]
 
 /-! ## non-vacuity -/
